@@ -159,7 +159,14 @@ def run_case(ck, desc):
     for k in range(len(seq)):
         op, res, st = log[k]
         last = max([i for i in sims if i <= k], default=None)
-        tail = seq[last : k + 1] if last is not None else seq[: k + 1]
+        # "a fresh object on which only the latest simulation and the recovery calls made after it
+        # were executed": earlier interpolator calls are NOT replayed (an interpolator that remembers
+        # an earlier call must not be able to hide behind an identical fresh history)
+        start = last if last is not None else 0
+        tail = [seq[start]] if last is not None else []
+        tail += [o for o in seq[start + (1 if last is not None else 0) : k] if o in ("rf", "rfd")]
+        if not (last is not None and k == last):
+            tail.append(seq[k])
         if last is not None and log[last][1][0] == "raise":
             # the latest simulate itself failed (only possible in the extension); nothing to replay
             continue
